@@ -1,3 +1,4 @@
 """translation units of the universe"""
 RULES = [('universe/u_rules.cc', ['VU_PART=%d' % i]) for i in range(1, 7)]
 DISPATCH = [('universe/u_dispatch.cc', ['VU_PART=%d' % i]) for i in range(1, 3)]
+INPUTS = [('universe/u_inputs.cc', [])]
